@@ -231,7 +231,13 @@ def rule_variational(prog, rep):
               f"initial best_params {show(pro['best_params'], 80)}, losses {show(pro['losses'], 40)}")
     ins = ["key", "params", "opt_state", "losses", "best_params", "static", "optimizer", "loss_fn", "keys"]
     tgt = loop.target.id if isinstance(loop.target, ast.Name) else "key"
-    extra_locals = sorted({n.id for n in ast.walk(loop) if isinstance(n, ast.Name) and isinstance(n.ctx, ast.Store)} - set(ins))
+    if tgt not in ins:
+        ins.append(tgt)
+    for nm in ast.walk(loop.iter):
+        if isinstance(nm, ast.Name) and nm.id not in ins:
+            ins.append(nm.id)
+    extra_locals = sorted({n.id for n in ast.walk(ast.Module(body=loop.body, type_ignores=[])) if isinstance(n, ast.Name)
+                           and isinstance(n.ctx, ast.Store)} - set(ins))
     state_vars = [v for v in extra_locals if any(isinstance(s, ast.Assign) and any(isinstance(t, ast.Name) and t.id == v for t in s.targets)
                                                  for s in body[:li])]
     outs = ["params", "best_params", "losses", "opt_state"] + state_vars
